@@ -283,6 +283,10 @@ func (m *Machine) vrtCall(name string, a []Value) Value {
 		return c.Or(a[0].(*Term), a[1].(*Term))
 	case "Implies":
 		return c.Or(c.Not(a[0].(*Term)), a[1].(*Term))
+	case "F32FromBits", "F64FromBits":
+		return c.FFromBits(a[0].(*Term))
+	case "F64Bits", "F32Bits":
+		return c.FBits(a[0].(*Term))
 	case "SameBits32":
 		return c.Eq(c.FBits(a[0].(*Term)), c.FBits(a[1].(*Term)))
 	case "SameBits":
